@@ -1,6 +1,7 @@
 import GrolProofs.Props.C02
 import GrolProofs.PrintFrame
 import GrolProofs.PrintNewline
+import GrolProofs.ParseEnd
 /-
 C03 — formatting is a deterministic fixpoint.
 
@@ -17,7 +18,11 @@ C03 — formatting is a deterministic fixpoint.
     "Exactly one" is PROVED too (`exactly_one_newline`) under the lexer fact, stated as a decidable
     hypothesis on the tree (`Printer.endOKL`): the literal of every token a node prints last (identifier,
     number, keyword, comment, operator of a postfix / open-ended `n:` node, `return`) is non-empty and
-    does not end in a newline.  That the lexer guarantees it belongs to the lexer component.
+    does not end in a newline.  `exactly_one_newline_parsed` discharges that hypothesis for every tree the PARSER
+    returns, from a fact about the token stream only (`Parser.LitFact`: identifiers, numbers, keywords, line
+    comments and operators have a non-empty literal that does not end in a newline; a block comment needs no
+    fact, the parser checks that it ends in `*/`).  `LitFact` itself is evaluated on every stream of the real
+    lexer (`litFactB`, sound by `litFact_of_b`); deriving it from the lexer model is not done here.
 -/
 namespace Grol.C03
 open Grol Grol.Wire Grol.Parser Grol.Printer Grol.Generated
@@ -52,6 +57,17 @@ theorem exactly_one_newline (tbl : Nat → Bool) (prog : NList) (allParens : Boo
     (h : printProgram tbl prog false allParens = .ok out) (he : endOKL prog = true) :
     ∃ body, out = body ++ [10] ∧ body.getLast? ≠ some 10 :=
   printProgram_exactly_one_newline tbl prog allParens out h he
+
+/-- (3) for PARSED programs: whatever the parser returns for a token stream satisfying the lexer fact `LitFact`
+(tokens of the kinds a node can print last — identifiers, numbers, keywords, line comments, operators — have a
+non-empty literal not ending in a newline; decided by `Parser.litFactB`, which the driver evaluates on every
+stream of the real lexer) prints, in normal mode, as `body ++ "\n"` with `body` not ending in a newline.
+No hypothesis on the tree is left. -/
+theorem exactly_one_newline_parsed (tbl : Nat → Bool) (s : TokStream) (hl : LitFact s) (fuel : Nat) (r : ParseResult)
+    (hp : parseProgram s fuel = .ok r) (allParens : Bool) (out : Bytes)
+    (h : printProgram tbl r.program false allParens = .ok out) :
+    ∃ body, out = body ++ [10] ∧ body.getLast? ≠ some 10 :=
+  exactly_one_newline tbl r.program allParens out h (parseProgram_endOK s hl fuel r hp)
 
 /-- history independence of the model, in the only form it can take there: parsing and printing
 are functions (no state survives between two calls) -/
